@@ -35,7 +35,7 @@ type C20Case struct {
 	Delays  string      `json:"delays"` // VERIF_WATCH_DELAYS for the watcher process
 }
 
-const c20Rule = "a package of 1-3 model files importing a sibling package, watched by `yardl generate --watch` (built with the verif tag) x a generated schedule of 2-7 saves (valid change, YAML syntax error, rule violation, file deleted / created / renamed to a name yardl does not read and back, touch without change, the imported package's manifest broken by an import that cannot be fetched / repaired, the python section removed from / restored in the watched package's own manifest while the watcher is idle, a valid change of the imported package's model; the last state valid, the last change a save - in the watched package or in the imported one -, a creation or a deletion) separated by gaps of 0-120 ms x per-regeneration delays of 0/60/350 ms injected at the hook inside generateImpl, so that an early regeneration can be made to outlast later ones. oracle: after the last save and quiescence (no output change for 1.2 s) the watcher is still running and the output tree equals that of a one-shot `yardl generate` of the final contents (when the final manifest has no python section: the python files are exactly those on disk when the section was removed, which a one-shot run would leave alone). non-trivial = a regeneration was delayed while later saves arrived (or regenerations overlapped in time per the hook log), or an invalid intermediate state occurred; distinct = hash of the schedule"
+const c20Rule = "a package of 1-3 model files importing a sibling package, watched by `yardl generate --watch` (built with the verif tag) x a generated schedule of 2-7 saves (valid change, YAML syntax error, rule violation, file deleted / created / renamed to a name yardl does not read and back, touch without change, the imported package's manifest broken by an import that cannot be fetched / repaired, the python section removed from / restored in the watched package's own manifest while the watcher is idle, a valid change of the imported package's model; the last state valid, the last change a save - in the watched package or in the imported one -, a creation, a deletion or a rename) separated by gaps of 0-120 ms x per-regeneration delays of 0/60/350 ms injected at the hook inside generateImpl, so that an early regeneration can be made to outlast later ones. oracle: after the last save and quiescence (no output change for 1.2 s) the watcher is still running and the output tree equals that of a one-shot `yardl generate` of the final contents (when the final manifest has no python section: the python files are exactly those on disk when the section was removed, which a one-shot run would leave alone). non-trivial = a regeneration was delayed while later saves arrived (or regenerations overlapped in time per the hook log), or an invalid intermediate state occurred; distinct = hash of the schedule"
 
 const c20Manifest = "namespace: Mdl\nimports:\n  - ../base\npython:\n  outputDir: ../out/py\njson:\n  outputDir: ../out/json\ncpp:\n  sourcesOutputDir: ../out/cpp\n  generateHDF5: false\n  generateCMakeLists: false\n"
 
@@ -102,7 +102,9 @@ func genC20(t *rapid.T) C20Case {
 			// package it imports), or b.yml (which nothing refers to) removed or created
 			kinds = []string{"valid", "valid", "valid", "create-b", "base-model", "base-model"}
 			if hasB {
-				kinds = append(kinds, "delete-b")
+				kinds = append(kinds, "delete-b", "rename-b-away")
+			} else if bAway {
+				kinds = append(kinds, "rename-b-back")
 			}
 			if aInvalid {
 				kinds = []string{"valid"}
